@@ -263,6 +263,122 @@ def _real_modes(rep, tier, seed):
                 rep.violation(f"impl:vmap:{ssm_name}:{strategy}:batched-solution:exception", f"{type(e).__name__}: {str(e)[:200]}", {})
 
 
+def _jit_reuse(rep, tier):
+    """ONE compiled solve applied to priors whose states share the container and the number of entries but not the inner
+    structure (leaf shape (2,3) then (3,2); dict fields of swapped shapes): the second call must come back in the
+    structure of ITS state and equal the uncompiled solve (a stale cache entry would return the first structure)."""
+    grid = jnp.asarray([0.0, 0.25, 0.75, 1.0])
+
+    def vf(u, *, t):
+        return jax.tree_util.tree_map(lambda x: -1.5 * x + 0.0 * t, u)
+
+    pairs = [
+        ("array(2,3)->(3,2)", jnp.arange(1.0, 7.0).reshape(2, 3), jnp.arange(2.0, 8.0).reshape(3, 2)),
+        ("dict-swapped-leaves", {"a": jnp.asarray([1.0, 2.0]), "b": jnp.asarray(3.0)}, {"a": jnp.asarray(0.5), "b": jnp.asarray([1.5, 2.5])}),
+    ]
+    for ssm_name in ("iso", "bd", "dense"):
+        ssm = realruns.SSMS[ssm_name]()
+        ode = pdq.ode(vf)
+        constraint = ssm.constraint_ode_ts0(ode)
+        solver = realruns.make_solver("solver", "filter", constraint)
+
+        def solve(prior):
+            sol = ivpsolve.solve_fixed_grid(solver=solver)(prior, grid=grid)
+            return sol.u.mean[0], sol.u.std[0]
+
+        for label, ua, ub in pairs:
+            jitted = jax.jit(solve)
+            outs = {}
+            try:
+                with warnings.catch_warnings():
+                    warnings.simplefilter("ignore")
+                    for tag, u0 in (("first", ua), ("second", ub)):
+                        tc, _ = pdq.jetexpand_ode_padded_scan(num=2)(ode, (u0,), t=0.0)
+                        prior = ssm.prior_wiener_integrated(tc)
+                        outs[tag] = (jitted(prior), solve(prior))
+            except Exception as e:  # raised inside the library
+                rep.violation(f"impl:jit-reuse:{ssm_name}:exception", f"{label}: {type(e).__name__}: {str(e)[:200]}", {})
+                continue
+            rep.traces += 1
+            rep.add_case(("jit-reuse", ssm_name, label))
+            (jm, js), (rm, rs) = outs["second"]
+            shapes_j = [tuple(np.shape(x)) for x in jax.tree_util.tree_leaves(jm)]
+            shapes_r = [tuple(np.shape(x)) for x in jax.tree_util.tree_leaves(rm)]
+            if jax.tree_util.tree_structure(jm) != jax.tree_util.tree_structure(rm) or shapes_j != shapes_r:
+                rep.violation(f"impl:jit-reuse:{ssm_name}:structure", f"{label}: the compiled solve returns leaf shapes {shapes_j} for a state with leaf shapes {shapes_r}", {})
+            elif realruns.rel(realruns.flat(jm), realruns.flat(rm)) > 1e-9 or realruns.rel(realruns.flat(js), realruns.flat(rs)) > 1e-7:
+                rep.violation(f"impl:jit-reuse:{ssm_name}:values", f"{label}: the compiled solve differs from the uncompiled one on the second problem", {})
+
+
+_VMAP_TERMINAL_SCRIPT = r"""
+import json, sys, warnings
+import jax, jax.numpy as jnp, numpy as np
+jax.config.update("jax_enable_x64", True)
+from probdiffeq import ivpsolve, probdiffeq as pdq
+names = sys.argv[1].split(",")
+SSMS = {"dense": pdq.state_space_model_dense, "iso": pdq.state_space_model_isotropic, "bd": pdq.state_space_model_blockdiag}
+out = {}
+for name in names:
+    def solve_one(k, name=name):
+        ode = pdq.ode(lambda u, *, t: -k * u + 0.0 * t)
+        tc, _ = pdq.jetexpand_ode_padded_scan(num=3)(ode, (jnp.asarray([1.0, 0.5]),), t=0.0)
+        ssm = SSMS[name]()
+        prior = ssm.prior_wiener_integrated(tc)
+        c = ssm.constraint_ode_ts0(ode)
+        solver = pdq.solver_mle(strategy=pdq.strategy_filter(), constraint=c)
+        err = pdq.error_residual_std(constraint=c)
+        sol = ivpsolve.solve_adaptive_terminal_values(solver=solver, error=err)(prior, t0=0.0, t1=1.0, dt0=0.05, atol=1e-6, rtol=1e-5)
+        return sol.u.mean[0], sol.u.std[0], sol.num_steps
+    ks = jnp.asarray([0.2, 2.0, 12.0])
+    with warnings.catch_warnings():
+        warnings.simplefilter("ignore")
+        singles = [solve_one(k) for k in ks]
+        batched = jax.vmap(solve_one)(ks)
+    rel = lambda a, b: float(np.max(np.abs(np.asarray(a) - np.asarray(b))) / (1e-300 + np.max(np.abs(np.asarray(b)))))
+    out[name] = {"steps_single": [int(np.asarray(s[2]).reshape(-1)[-1]) for s in singles], "steps_vmap": [int(x) for x in np.asarray(batched[2]).reshape(len(ks), -1)[:, -1]],
+                 "mean": max(rel(batched[0][j], singles[j][0]) for j in range(len(ks))), "std": max(rel(batched[1][j], singles[j][1]) for j in range(len(ks)))}
+print("@@RESULT " + json.dumps(out))
+"""
+
+
+def _vmap_terminal(rep, tier):
+    """vmap over solve_adaptive_terminal_values (clip_dt on by default) with members that need very different numbers
+    of steps; run in a child process under a watchdog because a batched while-loop that never ends cannot be interrupted
+    from Python"""
+    import json
+    import os
+    import subprocess
+    import sys
+
+    names = "dense" if tier == "quick" else "dense,iso,bd"
+    repo = os.environ.get("VERIF_REPO", "/repo")
+    env = dict(os.environ, PYTHONPATH=repo, JAX_PLATFORMS="cpu")
+    budget = 420
+    try:
+        p = subprocess.run([sys.executable, "-c", _VMAP_TERMINAL_SCRIPT, names], capture_output=True, text=True, timeout=budget, env=env)
+    except subprocess.TimeoutExpired:
+        rep.traces += 1
+        rep.add_case(("vmap-terminal", names, "timeout"))
+        rep.violation("impl:vmap:terminal_values:does-not-terminate",
+                      f"jax.vmap(solve_adaptive_terminal_values) over three members with different step counts did not return within {budget} s (each member alone solves in seconds)", {"models": names})
+        return
+    line = [ln for ln in p.stdout.splitlines() if ln.startswith("@@RESULT ")]
+    if not line:
+        if "probdiffeq/" in p.stderr and "Traceback" in p.stderr:
+            rep.violation("impl:vmap:terminal_values:exception", p.stderr.strip().splitlines()[-1][:300], {"stderr_tail": p.stderr[-2000:]})
+            return
+        raise RuntimeError("vmap-terminal child failed: " + p.stderr[-1500:])
+    res = json.loads(line[0][len("@@RESULT "):])
+    for name, r in res.items():
+        rep.traces += 1
+        rep.add_case(("vmap-terminal", name))
+        rep.extra.setdefault("vmap_terminal_step_counts", {})[name] = r["steps_single"]
+        if r["steps_single"] != r["steps_vmap"]:
+            rep.violation(f"impl:vmap:terminal_values:{name}:steps", f"step counts {r['steps_vmap']} under vmap vs {r['steps_single']} one at a time", {})
+        elif r["mean"] > 1e-8 or r["std"] > 1e-6:
+            rep.violation(f"impl:vmap:terminal_values:{name}:values", f"vmapped terminal values differ from the single solves: mean {r['mean']:.2e}, std {r['std']:.2e}", {})
+
+
 def run(tier: str, seed: int) -> int:
     rep = Report("C15", tier, seed)
     rep.rule = (
@@ -273,6 +389,8 @@ def run(tier: str, seed: int) -> int:
     _l0_modes(rep, tier, seed)
     _l1_modes(rep, tier, seed)
     _real_modes(rep, tier, seed)
+    _jit_reuse(rep, tier)
+    _vmap_terminal(rep, tier)
     rep.assumptions = [
         "conformance sampling over execution modes, not a proof about JAX's transformations",
         "NaNs in non-selected branches are invisible in forward values by construction",
